@@ -24,7 +24,8 @@ S = Suite(
     what="latlon_to_xy / plotting._geo.xy_to_latlon: round trips, origin, orientation, arrays, "
          "TowerConfig local xy; distance and bearing against haversine / initial bearing",
     bound="seeded reference points |lat| <= 60, lon in [-180,180] (1/5 of them within 0.05 deg of "
-          "the date line, unwrapped crossing), offsets 50 m .. 5 km, bearings uniform; 2 000 "
+          "the date line, unwrapped crossing; reference origins with latitude and / or longitude "
+          "exactly 0 as float and int), offsets 50 m .. 5 km, bearings uniform; 2 000 "
           "points quick / 20 000 thorough; poles and wrapped date-line crossing not examined",
     rule="round trip <= 1e-9 deg / 1e-6 m; |d_local/d_haversine - 1| <= 1e-3; |bearing diff| <= "
          "0.1 deg; x strictly increases with lon, y with lat; origin maps to (0.0, 0.0) exactly",
@@ -191,6 +192,16 @@ def generate(tier, rng):
         offs = [[rng.uniform(-5000, 5000), rng.uniform(-5000, 5000)]
                 for _ in range(rng.randint(1, 4))]
         yield "tower-config", dict(ref_lat=lat, ref_lon=lon, offsets=offs)
+    # reference origins on the equator and / or the Greenwich meridian, as float and as the
+    # integer a YAML file yields: 0 is a coordinate like any other ("any longitude")
+    for lat, lon in ((0.0, 37.3), (51.4779, 0.0), (0.0, 0.0), (0, 0), (-45.0, 0), (0, -120.5),
+                     (0.0, 180.0), (60.0, 0.0)):
+        for _ in range(1 if tier == "quick" else 5):
+            offs = [[rng.uniform(-5000, 5000), rng.uniform(-5000, 5000)]
+                    for _ in range(rng.randint(1, 4))]
+            yield "tower-config", dict(ref_lat=lat, ref_lon=lon, offsets=offs)
+            yield "point", dict(ref_lat=float(lat), ref_lon=float(lon),
+                                dist=rng.uniform(50.0, 5000.0), bearing=rng.uniform(0.0, 360.0))
 
 
 if __name__ == "__main__":
